@@ -80,7 +80,7 @@ def mandatory_bins(tier):
     b += ["cfb_seg%d" % s for s in range(1, 17)]
     b += ["block_mixed_call_sequence_on_one_object", "adapter_objects_used_by_concurrent_threads", "key_buffer_reused_for_the_next_key", "one_block_cipher_object_used_by_concurrent_threads"]
     b += ["cbc_default_iv", "cfb_default_iv", "ofb_default_iv", "ctr_default_counter"]
-    b += ["ctr_wraparound", "ctr_carry", "all_compositions", "empty_chunk", "feeder_pkcs7", "feeder_none", "stream_bs1", "stream_bs15", "stream_bs16", "stream_bs17", "stream_bs8192", "stream_with_short_reads", "stream_padding_none", "stream_padding_default",
+    b += ["ctr_wraparound", "ctr_carry", "all_compositions", "empty_chunk", "feeder_pkcs7", "feeder_none", "stream_bs1", "stream_bs15", "stream_bs16", "stream_bs17", "stream_bs8192", "stream_with_short_reads", "stream_padding_none", "stream_padding_default", "one_adapter_object_used_by_concurrent_threads",
           "adapter_history", "adapter_shared_key_iv", "adapter_trailing_zero_plaintext", "adapter_len_mod16_0", "adapter_len_mod16_1", "adapter_len_mod16_15", "adapter_explicit_iv", "adapter_default_iv", "adapter_long_data", "global_state_unchanged"]
     return b
 
@@ -540,11 +540,17 @@ def run_shard(spec, ctx):
             keys = [shared_key if spec["same_key"] else rng.randbytes(16) for _ in range(nthreads)]
             datas = [rng.randbytes(rng.choice((16, 33, 64, 100))) for _ in range(nthreads)]
 
+            one_object = spec["same_key"] and rnd % 2 == 1
+            shared_obj = ns.crypto.create_AES128(shared_key) if one_object else None
+            if one_object:
+                ctx.bin("one_adapter_object_used_by_concurrent_threads")
+                datas = [rng.randbytes(rng.choice((48, 100, 160, 400))) for _ in range(nthreads)]
+
             def body(i):
                 def run():
-                    a = ns.crypto.create_AES128(keys[i])
+                    a = shared_obj if one_object else ns.crypto.create_AES128(keys[i])
                     ct = a.encrypt(datas[i])
-                    b = ns.crypto.create_AES128(keys[i])
+                    b = shared_obj if one_object else ns.crypto.create_AES128(keys[i])
                     return ct, b.decrypt(ct), a.mac(datas[i])
                 return run
 
